@@ -111,10 +111,15 @@ def c19_case(rec, root):
         meta.append(("#META kexp: " if legacy else "#META CTE_KEXP: ") + V["km"][c["kmeta"]])
     if c["lmeta"] != "absent":
         meta.append(("#META Localizacion: " if legacy else "#META CTE_LOCALIZACION: ") + c["lmeta"])
+    # a valid RED1 / RED2 metadata value in one of the spellings RenNrenCo2::from_str reads
+    # (plain triple, parenthesised, braces with keys), chosen by the case number
+    sp = rec.get("case", 0) % 3
+    r1v = ["0.2, 1.2, 0.22", "(0.2, 1.2, 0.22)", "{ ren: 0.200, nren: 1.200, co2: 0.220 }"][sp]
+    r2v = ["0.25, 1.25, 0.225", "( 0.25 ,1.25, 0.225 )", "{ren: 0.25, nren: 1.25, co2: 0.225}"][(sp + 1) % 3]
     if c["r1meta"] != "absent":
-        meta.append("#META CTE_RED1: " + ("0.2, 1.2, 0.22" if c["r1meta"] == "valid" else "bad"))
+        meta.append("#META CTE_RED1: " + (r1v if c["r1meta"] == "valid" else "bad"))
     if c["r2meta"] != "absent":
-        meta.append("#META CTE_RED2: " + ("0.25, 1.25, 0.225" if c["r2meta"] == "valid" else "bad"))
+        meta.append("#META CTE_RED2: " + (r2v if c["r2meta"] == "valid" else "bad"))
     open(os.path.join(d, "in.csv"), "w").write("\n".join(meta + [BUILDING]))
     argv = ["-c", "in.csv", "--json", "out.json", "--oc", "out.csv"]
     fpath = None
